@@ -192,10 +192,14 @@ func init() {
 					Ev{K: "sub", C: 1, X: 0}, Ev{K: "unsub", C: 1, X: 0},
 					Ev{K: "cupd", C: 1, X: 0, Y: 0}, Ev{K: "cupd", C: 1, X: 0, Y: 1},
 					Ev{K: "clist", C: 1, X: 0}, Ev{K: "cdel", C: 1, X: 0, Y: 0},
-					Ev{K: "cadd", C: 1, X: 0, Y: 0}, Ev{K: "close", C: 1})
+					Ev{K: "cadd", C: 1, X: 0, Y: 0}, Ev{K: "close", C: 1},
+					Ev{K: "edel", C: 1, X: 0}) // not the owner: refused, must change nothing
 			}
 			if c := m.Conns[2]; c.Open && c.Sess != nil {
 				evs = append(evs, Ev{K: "sub", C: 2, X: 0}, Ev{K: "clist", C: 2, X: 0}, Ev{K: "close", C: 2})
+				if len(c.Sess.Types) > 1 {
+					evs = append(evs, Ev{K: "sub", C: 2, X: 1})
+				}
 			}
 			if anyPending(m) {
 				evs = append(evs, Ev{K: "tick"})
